@@ -7,10 +7,13 @@ import (
 	"sort"
 	"strings"
 
+	clientHandlers "github.com/mimecast/dtail/internal/clients/handlers"
 	"github.com/mimecast/dtail/internal/config"
 	"github.com/mimecast/dtail/internal/mapr"
 	maprclient "github.com/mimecast/dtail/internal/mapr/client"
 	maprserver "github.com/mimecast/dtail/internal/mapr/server"
+	serverHandlers "github.com/mimecast/dtail/internal/server/handlers"
+	user "github.com/mimecast/dtail/internal/user/server"
 )
 
 // renderLine turns an abstract line (k=v&k=v) into a log line of the given format.
@@ -127,6 +130,25 @@ func init() {
 				}
 				continue
 			}
+			// "wire<k>": every serialised partial result travels as the session carries it — the real server handler
+			// frames it (Read into ONE reused buffer of k bytes, as io.Copy does) and the real client mapreduce handler
+			// reassembles it from the chunks (Write)
+			wire := 0
+			if len(a) > 3 && strings.HasPrefix(a[3], "wire") {
+				wire = atoi(a[3][4:])
+			}
+			var sh *serverHandlers.ServerHandler
+			var mh *clientHandlers.MaprHandler
+			var wbuf []byte
+			if wire > 0 {
+				u, err := user.New("verif", "local")
+				if err != nil {
+					panic(err)
+				}
+				sh = serverHandlers.NewServerHandler(u, make(chan struct{}, 2), make(chan struct{}, 2))
+				mh = clientHandlers.NewMaprHandler(fmt.Sprintf("srv%d", i), q, global)
+				wbuf = make([]byte, wire)
+			}
 			for _, iv := range sv {
 				var lines []string
 				if format == "csv" && first {
@@ -135,6 +157,16 @@ func init() {
 				}
 				for _, kv := range iv {
 					lines = append(lines, renderLine(format, kv, header))
+				}
+				if wire > 0 {
+					for _, msg := range sa.VerifInterval(lines) {
+						sh.VerifC05MaprMessages() <- msg
+						for first := true; first || sh.VerifC05ReadPending() > 0; first = false {
+							n, _ := sh.Read(wbuf)
+							mh.Write(wbuf[:n])
+						}
+					}
+					continue
 				}
 				for _, msg := range sa.VerifInterval(lines) {
 					// what the client handler does with "AGGREGATE|host|<msg>"
